@@ -669,6 +669,9 @@ CORPUS = [
     ('k', [0.0, 0.0, 0.0, 1.0, 0.0, 0.0, -1.0, 1.0]),   # anti-parallel axis
     ('k', [1.0, 2.0, 3.0, 0.5, 0.0, -1.0, 0.0, -1.0]),
     ('k', [1.0, 2.0, 3.0, 0.5, -1.0, 0.0, 0.0, 1.0]),
+    ('k', [1.0, 2.0, 3.0, 0.5, 0.0, 0.0, 1.0, -1.0, 1.0]),   # ninth entry: log
+    ('k', [1.0, 2.0, 3.0, 0.5, 0.6, 0.0, 0.8, 1.0, 0.0]),
+    ('c', [1.0, 2.0, 3.0, 2.0, 0.6, 0.8, 0.0]),
     ('kz', [0.0, 1.0, -1.0]),
     ('kz', [1.0, 4.0]),                   # t^2 = 4: the square root matters
     ('k/y', [1.0, 2.0, 3.0, 0.25, 1.0]),
